@@ -9,6 +9,7 @@ mod expr_ir;
 mod kf;
 mod props;
 mod refsweep;
+mod replay;
 mod spaces;
 mod statemodel;
 
@@ -89,11 +90,14 @@ fn main() {
 
 fn replay(case: &frmc_core::json::J) -> i32 {
     match case.str_of("kind").as_str() {
-        "refsweep" | "shadow" | "c05" | "c09" | "c07" | "c13" | "c03" | "c04" | "c08" | "c10" | "c11" | "c16" | "c17" => refsweep::replay(case),
+        "refsweep" | "shadow" => refsweep::replay(case),
         "c20" => props::c20::replay(case),
-        k => {
-            eprintln!("unknown replay kind {:?}", k);
-            2
+        "c06" => replay::compile_only(case),
+        "c18" | "c18-static" | "c18-crosstalk" | "c12" | "c17" => {
+            println!("{}", case.to_string_pretty());
+            println!("(this kind is replayed by re-running `./check {} quick`; the record above holds the inputs and the schedule)", case.str_of("property"));
+            0
         }
+        _ => replay::generic(case),
     }
 }
